@@ -70,6 +70,14 @@ func diffMapMap(dst, src map[string]any) (any, error) {
 			continue
 		}
 
+		if !mergeable(v, v2) {
+			// No layer can turn v2 into v in place; replace the whole map
+			ret = maps.Clone(dst)
+			ret["$replace"] = true
+
+			return ret, nil
+		}
+
 		v3, err := diff(v, v2)
 		if err != nil {
 			return nil, err
@@ -94,6 +102,24 @@ func diffMapMap(dst, src map[string]any) (any, error) {
 	}
 
 	return ret, nil
+}
+
+// mergeable reports whether a layer value dst can be merged over a lower
+// layer value src: bkl rejects a scalar or list over a non-empty map and a
+// scalar or map over a list.
+func mergeable(dst, src any) bool {
+	switch src2 := src.(type) {
+	case map[string]any:
+		_, ok := dst.(map[string]any)
+		return ok || len(src2) == 0
+
+	case []any:
+		_, ok := dst.([]any)
+		return ok
+
+	default:
+		return true
+	}
 }
 
 func diffList(dst []any, src any) (any, error) {
